@@ -344,11 +344,13 @@ fn ctor_case(v: &mut Verdicts, c: &Value) {
                 "diag_matrix" => diag_matrix(&x).to_vec(),
                 "toeplitz" => toeplitz(&x),
                 "vandermonde" => vandermonde(&x, i("n") as usize),
-                _ => design(&x, x.len()),
+                _ => design(&x, c.get("r").and_then(|r| r.as_u64()).map(|r| r as usize).unwrap_or(x.len())),
             });
+            // data that does not fill its columns is rejected, not truncated
+            let want_panic = c.get("panic").and_then(|p| p.as_bool()).unwrap_or(false);
             match got {
-                Some(m) => (all_eq(&m, &f64s(&c["exp"])), "pattern".into(), fjs(&m)),
-                None => (false, "pattern".into(), json!("panic")),
+                Some(m) => (!want_panic && all_eq(&m, &f64s(&c["exp"])), if want_panic { "ragged-rejected".into() } else { "pattern".into() }, fjs(&m)),
+                None => (want_panic, if want_panic { "ragged-rejected".into() } else { "pattern".into() }, json!("panic")),
             }
         }
         "arange" => {
@@ -393,6 +395,23 @@ fn ctor_case(v: &mut Verdicts, c: &Value) {
             let g1 = guard(|| is_symmetric(&x));
             let g2 = guard(|| Matrix::new(x.clone(), n as i32, n as i32).is_symmetric());
             (g1 == Some(e) && g2 == Some(e), format!("{}", e), json!([g1, g2]))
+        }
+        "t_near_symmetric" => {
+            let n = i("n") as usize;
+            let (x, bump, src) = (f64s(&c["x"]), ints(&c["bump"]), ints(&c["src"]));
+            let up = |v: f64| if v == 0.0 { -0.0 } else { f64::from_bits(v.to_bits() + 1) };
+            let mut ok = true; let mut worst = json!("");
+            for (name, base) in [("fractional", Box::new(|v: f64| v + 0.1) as Box<dyn Fn(f64) -> f64>), ("huge-integers", Box::new(|v: f64| (v + 1.0) * 1e16)), ("zeros", Box::new(|v: f64| if v == 0.0 { 0.0 } else { v }))] {
+                let a: Vec<f64> = x.iter().zip(&bump).map(|(v, b)| if *b == 1 { up(base(*v)) } else { base(*v) }).collect();
+                let want: Vec<f64> = src.iter().map(|k| a[*k as usize - 1]).collect();
+                let m = Matrix::new(a.clone(), n as i32, n as i32);
+                let g1 = guard(|| m.t().data.to_vec());
+                let g2 = guard(|| { let mut m2 = m.clone(); m2.t_mut(); m2.data.to_vec() });
+                let g3 = guard(|| transpose(&a, n));
+                let same = |g: &Option<Vec<f64>>| g.as_ref().map(|g| g.len() == want.len() && g.iter().zip(&want).all(|(p, q)| p.to_bits() == q.to_bits())).unwrap_or(false);
+                if !(same(&g1) && same(&g2) && same(&g3)) { ok = false; worst = json!({"values": name, "a": fjs(&a), "t": g1.as_ref().map(|g| fjs(g)), "t_mut": g2.as_ref().map(|g| fjs(g))}); }
+            }
+            (ok, format!("n{}", n), worst)
         }
         "is_design" => {
             let x = f64s(&c["x"]);
